@@ -693,6 +693,80 @@ func nilGuardInRange(repo, file, fn, rangeExpr, lean, doc string) string {
 	return fmt.Sprintf("/-- generated from %s, func %s: %s -/\ndef %s : Bool := %v\n\n", file, fn, doc, lean, guarded == 1)
 }
 
+// callArgIs: in fn, the call whose source contains `callee` has `want` as its argument number `idx`
+func callArgIs(repo, file, fn, callee string, idx int, want, lean, doc string) string {
+	f, err := parser.ParseFile(fset, filepath.Join(repo, file), nil, 0)
+	if err != nil {
+		die("%s: %v", file, err)
+	}
+	fd := findFunc(f, fn)
+	if fd == nil {
+		die("%s: function %s not found", file, fn)
+	}
+	calls, ok := 0, 0
+	ast.Inspect(fd.Body, func(n ast.Node) bool {
+		c, isCall := n.(*ast.CallExpr)
+		if !isCall || !strings.HasSuffix(src(c.Fun), callee) {
+			return true
+		}
+		calls++
+		if len(c.Args) > idx && src(c.Args[idx]) == want {
+			ok++
+		}
+		return true
+	})
+	if calls != 1 {
+		die("%s: %s: expected one call of %s, found %d", file, fn, callee, calls)
+	}
+	return fmt.Sprintf("/-- generated from %s, func %s: %s -/\ndef %s : Bool := %v\n\n", file, fn, doc, lean, ok == 1)
+}
+
+// errCheckedAfter: the statement that follows the assignment calling `callee` (wherever it is nested in
+// fn) is `if err != nil { … return … }`
+func errCheckedAfter(repo, file, fn, callee, lean, doc string) string {
+	f, err := parser.ParseFile(fset, filepath.Join(repo, file), nil, 0)
+	if err != nil {
+		die("%s: %v", file, err)
+	}
+	fd := findFunc(f, fn)
+	if fd == nil {
+		die("%s: function %s not found", file, fn)
+	}
+	found, checked := 0, 0
+	ast.Inspect(fd.Body, func(n ast.Node) bool {
+		b, isBlock := n.(*ast.BlockStmt)
+		if !isBlock {
+			return true
+		}
+		for i, st := range b.List {
+			as, isAssign := st.(*ast.AssignStmt)
+			if !isAssign || len(as.Rhs) != 1 || !strings.Contains(src(as.Rhs[0]), callee) {
+				continue
+			}
+			found++
+			if i+1 < len(b.List) {
+				if is, isIf := b.List[i+1].(*ast.IfStmt); isIf && is.Init == nil && strings.ReplaceAll(src(is.Cond), " ", "") == "err!=nil" {
+					ret := false
+					ast.Inspect(is.Body, func(m ast.Node) bool {
+						if _, r := m.(*ast.ReturnStmt); r {
+							ret = true
+						}
+						return true
+					})
+					if ret {
+						checked++
+					}
+				}
+			}
+		}
+		return true
+	})
+	if found != 1 {
+		die("%s: %s: expected one assignment from %s, found %d", file, fn, callee, found)
+	}
+	return fmt.Sprintf("/-- generated from %s, func %s: %s -/\ndef %s : Bool := %v\n\n", file, fn, doc, lean, checked == 1)
+}
+
 func effectOrder(repo, file, fn, lean string, effects [][2]string) string {
 	f, err := parser.ParseFile(fset, filepath.Join(repo, file), nil, 0)
 	if err != nil {
@@ -824,6 +898,18 @@ func main() {
 			return effectOrder(repo, bs, "Close", "closeOrder", [][2]string{
 				{"guard", "b.isClosed()"}, {"cancel", "b.cancel()"}, {"unregister", "b.closeFunc()"},
 				{"stop", "Replicator().Stop()"}, {"cacheclose", "b.Cache().Close()"}})
+		}},
+		{"GenConnect", func() string {
+			return effectOrder(repo, "pubsub/oneonone/channel.go", "Connect", "connectOrder", [][2]string{
+				{"lock", "c.muSubs.Lock()"}, {"subscribe", "PubSub().Subscribe("}, {"unlock", "c.muSubs.Unlock()"}})
+		}},
+		{"GenTopic", func() string {
+			return callArgIs(repo, bs, "replicate", "TopicSubscribe", 1, "b.id", "storeTopicIsAddress",
+				"the pubsub topic a store subscribes to is named by its address (b.id), not by anything databases may share")
+		}},
+		{"GenResolve", func() string {
+			return errCheckedAfter(repo, "baseorbitdb/orbitdb.go", "createStore", "acutils.Resolve(", "resolveErrChecked",
+				"an access controller that cannot be resolved ends createStore with an error (no store under a fallback controller)")
 		}},
 		{"GenDocs", func() string {
 			return nilGuardInRange(repo, "stores/operation/operation.go", "GetDocs", "o.Docs", "getDocsSkipsNil",
